@@ -39,6 +39,48 @@ theorem view_recovers_spend (g : G) (Hs : G → I → ZMod ℓ) (a r : ZMod ℓ)
   unfold viewOut derivePub
   rw [smul_comm a r g, add_sub_cancel_right]
 
+/-! `Transaction.ViewGhostKey`: the outputs of a transaction are built one after the other
+(`AddOutputWithType` derives the ghost keys of output number `i` with index `i`); the viewer walks
+over all outputs and views each *script* output with its position in the whole output list. -/
+
+/-- an output as the sender specifies it: script type?, mask scalar, recipients' public spend keys -/
+structure TxOut (ℓ : ℕ) (G : Type) where
+  script : Bool
+  r : ZMod ℓ
+  spends : List G
+
+/-- `AddOutputWithType` for outputs number `i, i+1, …`: (script?, mask `r•g`, ghost keys) -/
+def txAsBuilt (g : G) (Hs : G → ℕ → ZMod ℓ) (a : ZMod ℓ) : ℕ → List (TxOut ℓ G) → List (Bool × G × List G)
+  | _, [] => []
+  | i, o :: rest =>
+    (o.script, o.r • g, o.spends.map (fun B => derivePub g Hs o.r (a • g) B i)) :: txAsBuilt g Hs a (i + 1) rest
+
+/-- `Transaction.ViewGhostKey(a)` from output number `i` on -/
+def viewTxFrom (g : G) (Hs : G → ℕ → ZMod ℓ) (a : ZMod ℓ) : ℕ → List (Bool × G × List G) → List (List G)
+  | _, [] => []
+  | i, (sc, R, keys) :: rest =>
+    if sc then keys.map (fun P => viewOut g Hs P a R i) :: viewTxFrom g Hs a (i + 1) rest
+    else viewTxFrom g Hs a (i + 1) rest
+
+/-- Viewing a transaction recovers, script output by script output, exactly the recipients' public
+    spend keys — for every output list, whatever other outputs stand before or between them. -/
+theorem view_tx_recovers_spend (g : G) (Hs : G → ℕ → ZMod ℓ) (a : ZMod ℓ) :
+    ∀ (outs : List (TxOut ℓ G)) (i : ℕ),
+      viewTxFrom g Hs a i (txAsBuilt g Hs a i outs) = (outs.filter (·.script)).map (·.spends)
+  | [], _ => rfl
+  | o :: rest, i => by
+    have ih := view_tx_recovers_spend g Hs a rest (i + 1)
+    have hk : (o.spends.map (fun B => derivePub g Hs o.r (a • g) B i)).map
+        (fun P => viewOut g Hs P a (o.r • g) i) = o.spends := by
+      rw [List.map_map]
+      conv_rhs => rw [← List.map_id o.spends]
+      apply List.map_congr_left
+      intro B _
+      exact view_recovers_spend g Hs a o.r B i
+    cases hs : o.script with
+    | true => simp [txAsBuilt, viewTxFrom, hs, hk, ih]
+    | false => simp [txAsBuilt, viewTxFrom, hs, ih]
+
 end Ghost
 
 /-! The executable model works with discrete logarithms modulo `ell`; its operations are the
@@ -60,6 +102,8 @@ theorem ghost_dl_agree (hs b : ℕ) : derivePrivDl hs b = derivePubDl b hs := by
   simp [derivePrivDl, derivePubDl, Nat.add_comm]
 
 example : derivePub? 5 7 11 = some 18 ∧ derivePriv? 3 11 7 = some 18 ∧ viewOut? 18 3 11 = some 7 := by decide
+-- the executable counterpart: the second output (index 1) is viewed with the hash of index 1
+example : viewTx (fun m i => if m = 1 ∧ i = 1 then some 11 else none) [⟨false, 0, [5]⟩, ⟨true, 1, [18]⟩] = some [[7]] := by decide
 example : derivePub? 0 7 11 = none ∧ derivePriv? 0 11 7 = none := by decide
 
 
